@@ -269,6 +269,8 @@ type WorkerConfig struct {
 	// PostRun, when set, is called after every Run (race binaries use it to
 	// turn new race-detector reports into violations).
 	PostRun func(c interface{}, o *Outcome)
+	// Extra, when set, returns process-wide counters to add to the partial result at the end.
+	Extra func() map[string]int64
 	// NoShrinkInProcess: violations are only written out unshrunk (race binaries
 	// shrink in fresh processes, driven by the orchestrator).
 	NoShrinkInProcess bool
@@ -374,6 +376,11 @@ func RunWorker(p Prop, cfg WorkerConfig) (*Partial, error) {
 		part.Hashes = append(part.Hashes, h)
 	}
 	sort.Strings(part.Hashes)
+	if cfg.Extra != nil {
+		for k, n := range cfg.Extra() {
+			part.Counters[k] += n
+		}
+	}
 	part.WallS = time.Since(start).Seconds()
 	if cfg.Out != "" {
 		b, _ := json.Marshal(part)
